@@ -19,8 +19,8 @@ CLAIMED = {
         technique="Coq proof (iff decision theorem) + source-to-Coq translator with generated equality lemma + exhaustive small-domain correspondence"),
     "C13": dict(
         text="Coq theorems for all tableau sizes: each of the 8 gate kernels is the Clifford conjugation (sign included) of the Pauli string a row denotes; "
-             "conjugation tables proved against Gaussian-integer matrices; conjugation is an injective homomorphism of the n-qubit Pauli group preserving commutation, hence a gate maps the generated group onto exactly the conjugated group and keeps the generators commuting and independent; the row product implements the Pauli product with the phase rule as coded; Gaussian elimination preserves the generated group (signs included) and commutation; == true implies same group (converse and `contains` need RREF uniqueness: stated, not proved, named _partial). "
-             "The kernels are regenerated from stabilizer_states.py on every run and proved equal to the model; exact model/implementation correspondence for gates, tensor, add_qubit, Gaussian elimination, ==, contains.",
+             "conjugation tables proved against Gaussian-integer matrices; conjugation is an injective homomorphism of the n-qubit Pauli group preserving commutation, hence a gate maps the generated group onto exactly the conjugated group and keeps the generators commuting and independent; the row product implements the Pauli product with the phase rule as coded; tensor product / add_qubit generate the product group (rows are the identity-padded rows); Gaussian elimination preserves the generated group (signs included), yields the unique reduced row echelon form, and therefore == holds iff the two groups are equal and contains(g) iff g is in the group (C13_teq_iff_same_group, C13_contains_iff_in_group, C13_rref_unique). "
+             "The kernels are regenerated from stabilizer_states.py on every run and proved equal to the model; exact model/implementation correspondence for gates, tensor, add_qubit, Gaussian elimination, ==, contains, row product (incl. structured +-i imbalances).",
         design="4/C13",
         note="Trusted: Coq kernel+vm_compute; ast translator for the gate kernels; numpy semantics of masks/views; group<->state link checked numerically (oracle), not proved.",
         technique="Coq proof (per-row conjugation theorems, all n) + source-to-Coq translator with generated equality lemmas + vm_compute correspondence"),
@@ -76,7 +76,7 @@ CLAIMED = {
         note="Trusted: Coq kernel; netqasm message (de)serialisers (their prefix-rejection is checked per run, not proved); handlers are synchronous in model and harness; real TCP buffering replaced by chosen chunkings / a local socketpair.",
         technique="Coq proof (induction over chunk lists / message lists, prefix-free codec lemma, refutation witnesses) + vm_compute correspondence"),
     "C14": dict(
-        text="PARTIAL proof. Coq theorems (in the measured-qubit-first frame the code itself eliminates in): elimination keeps the group and leaves at most one row with X/Y on the measured qubit; random branch: outcome = coin for both coins, the in-place result generates <(-1)^b Z, rows 1..> and rows 1.. generate exactly the elements of G commuting with Z; determined branch and repeat: partial statements. Not proved: transport along the column permutation back to the original frame, the destructive branch at group level, and everything needing RREF uniqueness (deterministic outcome value, equality of the repeated outcome). Those are covered, as a test, by exact tableau+outcome correspondence (exhaustive on 1..2 qubits quick / 1..3 thorough x positions x modes x coins, random up to 8 qubits) and a numpy Born-rule/projection/partial-trace oracle.",
+        text="Coq theorems at the level of the stabilizer group, in the ORIGINAL qubit order, for every well-formed state of n commuting independent generators and every position: random branch: outcome = coin for both coins and the in-place result is exactly {h, (-1)^coin Z_p h : h in G commuting with Z_p}; determined branch: outcome = 0 iff +Z_p in G (one of +-Z_p always is), group unchanged; destructive results are exactly the elements of the in-place group acting as I on p with that position deleted and the others in order, again n-1 commuting independent generators; an immediate in-place re-measurement repeats the outcome and keeps the group (C14_meas_random, C14_meas_determined_outcome, C14_meas_*_destructive, C14_meas_repeat). Not formalised: the link stabilizer group <-> Hilbert-space state / Born rule (textbook; checked numerically by the projector oracle on every run). Tie: exact tableau+outcome correspondence with the coin forced both ways (exhaustive on 1..2 qubits quick / 1..3 thorough x positions x modes x coins, random up to 8 qubits).",
         design="9.5/C14 (notes/C14.md)",
         note="Trusted: Coq kernel; numpy primitives of StabilizerState.measure (modelled by hand, tied by exact correspondence); Born rule <-> stabilizer group link checked numerically.",
         technique="Coq proof (group-level measurement lemmas over the elimination invariant) + exhaustive small-domain vm_compute correspondence + numpy oracle"),
